@@ -300,6 +300,9 @@ def reorder_sets(sets):
     s = set().union(*sets)  # union of the sets
 
     tree = P(sets)
+    if tree.number_of_children() <= 2:
+        # P() removes duplicated sets: with at most two distinct sets any ordering works
+        return tree.ordering()
 
     for i in s:
         tree.set_contiguous(i)
